@@ -4,26 +4,30 @@ Proof: props/Properties_C04.v (models PV.Lattice -- whose term factories are reg
 src/pomerol/LatticePresets.cpp on every run --, PV.IndexHam, specification PV.PresetsSpec).
 
 Tie and decision, on every run.  Scenarios (site layout + preset calls + raw terms) are run through the real library by
-harness h_ed with symmetries ignored (`model hprep`): the dump gives the real index map (INFO), the real
-IndexHamiltonian polynomial (HPOLY) and the full 2^N x 2^N Fock matrix assembled by HamiltonianPart (HBLK).  Doubles
-are converted exactly (hex floats of dyadic rationals).  The extracted driver (ocaml/driver_c04.ml around
-PV.PresetsExec) evaluates, over exact rationals (complex build: Gaussian rationals):
-  (a) MODEL vs HPOLY: Lattice.v's state machine -> IndexHam.prepare with the index map of the dump, for fixed = false
-      and fixed = true; monomials, coefficients and map ORDER are compared exactly.  This DECIDES which variant the
-      library is; it is never assumed.
+harness h_ed with symmetries ignored (`model hprep`, many scenarios per process): the dump gives the real index map
+(INFO), the real IndexHamiltonian polynomial (HPOLY) and the full 2^N x 2^N Fock matrix assembled by HamiltonianPart
+(HBLK).  Doubles are converted exactly (hex floats of dyadic rationals).  The extracted driver (ocaml/driver_c04.ml
+around PV.PresetsExec) evaluates, over exact rationals (complex build: Gaussian rationals):
+  (a) MODEL vs HPOLY: Lattice.v's state machine -> IndexHam.prepare with the index map of the dump, in four variants
+      = two repair flags: `fixed` (IndexHamiltonian::prepare decides "first factor" by the loop index) and `mag_half`
+      (addMagnetization with Magnetization/2., executed as the as-is model on the halved parameter); monomials,
+      coefficients and map ORDER are compared exactly.  This DECIDES which variant the library is; never assumed.
   (b) documented-operator: the implementation's matrix = sum over the calls of the documented operator (PresetsSpec, the
       executable x-forms; raw term = value * Jordan-Wigner product of its operators);
   (c) hermitian: H[r][c] = conj H[c][r], claimed for scenarios built from presets (real parameters where the
       documentation needs them real) and raw terms that come with their Hermitian conjugate;
   (d) su2-commutator: [H, S^+_tot] = [H, S^-_tot] = 0 for two-spin lattices built from addCoulombP (U' = U - 2J),
-      addCoulombS, addLevel, addSS, addHopping4/6.  Negative controls (addSzSz, addMagnetization, single-spin hopping;
-      addCoulombP with U' <> U - 2J) are only counted.
+      addCoulombS, addLevel, addSS, addHopping4/6.  addCoulombP with another U' and the negative controls (addSzSz,
+      addMagnetization, single-spin hopping) are computed and counted, nothing is demanded of them.
 A VIOLATION is raised only when (b), (c) or (d) fails on the implementation -- never by a mere model/code difference.
-Failing scenarios are shrunk (drop calls, drop sites, reduce orbitals/spins, spin-major -> default order, amplitudes ->
-1 / -1 / 0.5) while the same clause keeps failing, and labels are renamed A, B, C.  Failures that the model reproduces
-with `fixed = false` and repairs with `fixed = true` (the repaired model satisfies the clause on that scenario) are the
-modelled defect of IndexHamiltonian::prepare and are reported under the key of its corpus witness.
-If the library's polynomial differs from both model variants on a scenario where (b)-(d) hold, the model is wrong:
+  * A failure is EXPLAINED BY A MODELLED DEFECT when the library's polynomial is that of a model variant with a repair
+    flag off and the fully repaired model satisfies clause (b) on that scenario; the defects involved are the flags
+    whose repair changes the polynomial there.  Each modelled defect is reported once, under the key of its corpus
+    witness (DEFECTS below), with the number of failing scenarios it explains.
+  * Everything else is shrunk (drop calls, drop sites, reduce orbitals/spins, spin-major -> default order, amplitudes ->
+    1 / -1 / 0.5 / 0, smaller indices) while the same clause keeps failing, labels are renamed A, B, C, and the minimal
+    scenario is the key.
+If the library's polynomial differs from every model variant on a scenario where (b)-(d) hold, the model is wrong:
 chk.tie_broken.
 """
 import json
@@ -35,6 +39,9 @@ import pv
 
 DRIVER = "driver_c04"
 CLAUSES = {"b": "documented-operator", "c": "hermitian", "d": "su2-commutator", "x": "no-matrix"}
+VARIANTS = [(0, 0), (1, 0), (0, 1), (1, 1)]      # model variants (fixed, mag_half)
+# spin-major index ordering on sites with different spin counts: only when the library survives it (probed at run time; C18's finding)
+MIXED_SPIN_MAJOR = {"ok": False}
 
 # argument kinds per preset: L label, A amplitude, I integer
 PRESETS = {"addCoulombS": "LAA", "addCoulombP": "LAAAA", "addCoulombP3": "LAAA", "addLevel": "LA", "addMagnetization": "LA",
@@ -47,9 +54,23 @@ F = Fraction
 DYADIC = [F(0), F(1), F(-1), F(1, 2), F(-1, 2), F(1, 4), F(2), F(-3, 4), F(3, 2)]
 NONZERO = [x for x in DYADIC if x != 0]
 
-WITNESS_PREPARE = ["site A 3 1", "term 4 1 1 A 0 0 1 A 0 0 0 A 1 0 0 A 2 0"]
-WHERE_PREPARE = ("IndexHamiltonian::prepare (src/pomerol/IndexHamiltonian.cpp:26 `if (tmp.isEmpty()) tmp=t1; else tmp*=t1;`): a running "
-                 "product that has vanished (repeated operator) is mistaken for `no factor yet`, so the remaining factors alone are added")
+# the modelled defects: repair flag -> (corpus witness, where, what the witness shows, Coq theorem)
+DEFECTS = {
+    "prepare": (["site A 3 1", "term 4 1 1 A 0 0 1 A 0 0 0 A 1 0 0 A 2 0"],
+                "IndexHamiltonian::prepare (src/pomerol/IndexHamiltonian.cpp:26 `if (tmp.isEmpty()) tmp=t1; else tmp*=t1;`): a running product "
+                "that has vanished (repeated operator) is mistaken for `no factor yet`, so the remaining factors alone are added",
+                "the term contains c^+_0 twice, so it is the zero operator, but the library adds c_1 c_2",
+                "model flag fixed=false reproduces the library's polynomial; fixed=true (first factor decided by the loop index) satisfies the clause"),
+    "magnetization": (["site A 1 2", "addMagnetization A 1"],
+                      "LatticePresets::addMagnetization (src/pomerol/LatticePresets.cpp:210-211) adds mH (n_up - n_down); its documentation "
+                      "(include/pomerol/LatticePresets.h:121) says mH 1/2 (n_up - n_down)",
+                      "every matrix element is twice the documented one",
+                      "model flag mag_half=false (the code as it stands) reproduces the library's polynomial; mag_half=true (Magnetization/2.) satisfies the clause"),
+}
+
+
+def witness_key(flag):
+    return "%s: %s" % (CLAUSES["b"], " | ".join(DEFECTS[flag][0]))
 
 
 # ----------------------------------------------------------------------------------------------------------------
@@ -148,25 +169,25 @@ class Scen:
         return True
 
     def su2_class(self):
-        """'sym' (clause d is claimed), 'control' (commutators computed, nothing demanded) or None"""
+        """'sym' (clause d is claimed), 'general-Up' (addCoulombP with U' <> U - 2J on an otherwise symmetric lattice: commutators computed
+        and counted, nothing demanded -- the property text claims U' = U - 2J only), 'control' (negative control) or None"""
         s = self.sites()
         if not s or any(sh[1] != 2 for sh in s.values()):
             return None
         calls = [it for it in self.items if it[0] != "site"]
         if not calls or any(it[0] == "term" for it in calls):
             return None
-        if self.su2_control:
-            return "control"
+        general = False
         for it in calls:
             if it[1] not in SU2_SYMMETRIC:
                 return "control"
-            if it[1] == "addCoulombP":
-                U, Up, J = it[2][1], it[2][2], it[2][3]
-                if (Up[0], Up[1]) != (U[0] - 2 * J[0], U[1] - 2 * J[1]):
-                    return "control"
             if any(isinstance(a, tuple) and a[1] != 0 for a in it[2]):
                 return "control"        # complex parameters: nothing is claimed
-        return "sym"
+            if it[1] == "addCoulombP":
+                U, Up, J = it[2][1], it[2][2], it[2][3]
+                if Up[0] != U[0] - 2 * J[0]:
+                    general = True
+        return "general-Up" if general else "sym"
 
     def valid(self):
         """every call is defined for the lattice at the time of the call (PV.Lattice.preset_defined / addTerm validation), at most 6 modes,
@@ -205,7 +226,7 @@ class Scen:
                     return False
         if not m or sum(x * y for x, y in m.values()) > 6:
             return False
-        if self.order_spins and len(set(s[1] for s in m.values())) > 1:
+        if self.order_spins and len(set(s[1] for s in m.values())) > 1 and not MIXED_SPIN_MAJOR["ok"]:
             return False
         # every site line precedes the calls (the index map of the dump is the final site map)
         seen_call = False
@@ -245,10 +266,7 @@ def scen_from_lines(lines, order_spins=0, variant="real", hermitian=None, su2=No
             items.append(("preset", t[0], a))
         elif t[0] == "order_spins":
             order_spins = int(t[1])
-    s = Scen(items, order_spins, variant, "replay")
-    if su2 == "control":
-        s.su2_control = True
-    return s
+    return Scen(items, order_spins, variant, "replay")
 
 
 # ----------------------------------------------------------------------------------------------------------------
@@ -330,6 +348,16 @@ class Tools:
         self.pool = ThreadPoolExecutor(max_workers=min(8, pv.NPROC))
         self.stats = {"harness_processes": 0, "driver_processes": 0}
 
+    def probe_spin_major(self):
+        """does IndexClassification::prepare(true) cope with sites of different spin counts on this tree?"""
+        ok = True
+        for v in self.h:
+            s = Scen([site("A", 1, 1), site("B", 1, 2), P("addLevel", "B", amp(1))], 1, v)
+            im = self._impl_batch(v, [s])[0]
+            ok = ok and im.matrix is not None and len(im.info) == 3
+        MIXED_SPIN_MAJOR["ok"] = ok
+        return ok
+
     def _impl_batch(self, variant, scens):
         self.stats["harness_processes"] += 1
         rc, out, err = pv.run_harness(self.h[variant], harness_input(scens), timeout=300)
@@ -365,9 +393,7 @@ class Tools:
             if t[0] == "==":
                 cur = res.setdefault(t[1], {})
             elif cur is not None:
-                if t[0] == "POLY":
-                    cur["POLY" + t[1]] = t[2:]
-                elif t[0] in ("SU2", "MODELSPEC"):
+                if t[0] in ("POLY", "SU2"):
                     cur[t[0] + t[1]] = t[2:]
                 else:
                     cur[t[0]] = t[1:]
@@ -427,11 +453,12 @@ class Verdict:
         self.scen, self.impl, self.rec = scen, impl, rec
         self.fails = []            # clause ids
         self.detail = {}
-        self.match = (None, None)  # HPOLY = model(fixed=false), model(fixed=true)
+        self.match = None          # {(fixed, mag_half): HPOLY = that model variant's polynomial}
+        self.polys = {}
         self.model_ok = None       # every call succeeds in the model
         self.driver_error = None
         self.commutes = None
-        self.modelspec = {}
+        self.repaired_model_ok = None   # the fully repaired model satisfies clause (b) here (asked only when the implementation does not)
         if impl.matrix is None:
             self.fails.append("x")
             self.detail["x"] = impl.crash or impl.error
@@ -440,12 +467,10 @@ class Verdict:
             self.driver_error = " ".join(rec.get("DRIVER-ERROR", rec.get("BAD", ["incomplete driver output"])))
             return
         self.model_ok = all(x == "ok" for x in rec["RES"])
-        p0, p1 = poly_of_tokens(rec["POLY0"]), poly_of_tokens(rec["POLY1"])
-        self.match = (p0 == impl.hpoly, p1 == impl.hpoly)
-        self.models_differ = p0 != p1
-        for k in ("0", "1"):
-            if "MODELSPEC" + k in rec:
-                self.modelspec[int(k)] = int(rec["MODELSPEC" + k][0])
+        self.polys = dict((v, poly_of_tokens(rec["POLY%d%d" % v])) for v in VARIANTS)
+        self.match = dict((v, self.polys[v] is not None and self.polys[v] == impl.hpoly) for v in VARIANTS)
+        if "MODELSPEC" in rec:
+            self.repaired_model_ok = rec["MODELSPEC"] == ["0"]
         if int(rec["SPEC"][0]) != 0:
             self.fails.append("b")
             e = rec["SPEC"][1:]
@@ -470,9 +495,25 @@ class Verdict:
                 self.detail["d"] = {"nonzero_entries_of_[H,S+]": np_, "nonzero_entries_of_[H,S-]": nm,
                                     "first(row col re im)": rec["SU2+"][1:] + rec["SU2-"][1:]}
 
-    def explained_by_prepare(self):
-        """the library follows the loop as written, the repaired loop differs, and the repaired model satisfies clause (b) here"""
-        return self.match == (True, False) and self.modelspec.get(1) == 0
+    def lib_variants(self):
+        return [v for v in VARIANTS if self.match and self.match[v]]
+
+    def explained_by(self):
+        """the modelled defects (repair flags) that explain the failed clauses (b)/(c) of this scenario, or None.
+        Explained = the library's polynomial is that of a model variant with some repair off, and the fully repaired model satisfies
+        the clause on this scenario; the defects involved are the flags whose repair changes that variant's polynomial here."""
+        if not self.fails or "x" in self.fails or "d" in self.fails or not self.repaired_model_ok:
+            return None
+        lv = self.lib_variants()
+        if not lv or (1, 1) in lv:
+            return None
+        v = lv[0]
+        flags = []
+        if not v[0] and self.polys[v] != self.polys[(1, v[1])]:
+            flags.append("prepare")
+        if not v[1] and self.polys[v] != self.polys[(v[0], 1)]:
+            flags.append("magnetization")
+        return flags or None
 
 
 def judge(tools, scens):
@@ -734,10 +775,16 @@ def corpus(variant="real"):
     add("ss-two-site-su2", [site("A", 1, 2), site("B", 1, 2), P("addSS", "A", "B", amp(-3, 4)), P("addHopping4", "A", "B", amp(1))], order_spins=1)
     add("ss-chain-su2", [site("A", 1, 2), site("B", 1, 2), site("C", 1, 2), P("addSS", "A", "B", amp(1)), P("addSS", "B", "C", amp(1, 2)),
                          P("addCoulombS", "B", amp(2), amp(-1))])
-    add("control-kanamori-other-Up", [site("A", 2, 2), P("addCoulombP", "A", amp(2), amp(2), amp(1, 2), amp(0))], control=True)
+    add("general-Up-kanamori2", [site("A", 2, 2), P("addCoulombP", "A", amp(2), amp(2), amp(1, 2), amp(0))])
+    add("general-Up-kanamori3", [site("A", 3, 2), P("addCoulombP", "A", amp(1), amp(-1, 2), amp(1, 4), amp(1))], order_spins=1)
     add("control-szsz", [site("A", 1, 2), site("B", 1, 2), P("addSzSz", "A", "B", amp(1))], control=True)
     add("control-magnetization", [site("A", 1, 2), P("addMagnetization", "A", amp(1)), P("addCoulombS", "A", amp(1), amp(0))], control=True)
     add("control-single-spin-hopping", [site("A", 1, 2), site("B", 1, 2), P("addHopping7", "A", "B", amp(1), 0, 0, 1)], control=True)
+    if MIXED_SPIN_MAJOR["ok"]:
+        add("spin-major-mixed-spin-counts", [site("A", 1, 1), site("B", 1, 2), site("C", 1, 3), P("addLevel", "C", amp(1, 2)), P("addCoulombS", "B", amp(1), amp(-1)),
+                                             P("addHopping8", "A", "C", t1, 0, 0, 0, 2), P("addHopping7", "B", "A", t2, 0, 0, 0)], order_spins=1)
+        add("spin-major-mixed-spin-counts-term", [site("x1", 2, 1), site("B", 1, 2), term(v, [(1, "x1", 1, 0), (0, "B", 0, 1), (1, "B", 0, 0), (0, "x1", 0, 0)], True),
+                                                  P("addMagnetization", "B", amp(0))], order_spins=1)
     bad = [s.tag for s in c if not s.valid()]
     assert not bad, "invalid corpus scenarios: %r" % bad
     return c
@@ -845,7 +892,7 @@ class Gen:
                     items.append(self.raw_term(m))
                 else:
                     items.append(self.preset(m, list(PRESETS)))
-            os_ = r.randrange(2) if len(set(sh[1] for sh in m.values())) == 1 else 0
+            os_ = r.randrange(2) if (len(set(sh[1] for sh in m.values())) == 1 or MIXED_SPIN_MAJOR["ok"]) else 0
             s = Scen(st + items, os_, self.variant, "random")
         return s if s.valid() else self.scenario()
 
@@ -894,36 +941,49 @@ def item_signatures(s, clause_set):
 
 # ----------------------------------------------------------------------------------------------------------------
 
-def report(chk, tools, verdicts, witness_key):
-    """violations for the failed clauses: modelled defect -> witness key; everything else shrunk and keyed by the minimal scenario"""
-    explained = {"count": 0, "by_clause": {}, "examples": []}
-    todo = {}      # clause -> first failing verdict (corpus scenarios come first in the list)
+def hpoly_json(v):
+    return [[str(x[0]), str(x[1]), list(x[2])] for x in (v.impl.hpoly or [])]
+
+
+def match_json(v):
+    return dict(("fixed=%d,mag_half=%d" % k, b) for k, b in (v.match or {}).items())
+
+
+def report(chk, tools, verdicts):
+    """violations for the failed clauses: modelled defects -> key of their corpus witness; everything else is shrunk and keyed by
+    the minimal scenario"""
+    explained = dict((f, {"count": 0, "by_clause": {}, "examples": []}) for f in DEFECTS)
+    todo = {}      # clause -> failing verdicts (corpus scenarios come first in the list)
     for v in verdicts:
         if not v.fails:
             continue
-        if v.fails != ["x"] and v.explained_by_prepare():
-            explained["count"] += 1
-            for c in v.fails:
-                explained["by_clause"][CLAUSES[c]] = explained["by_clause"].get(CLAUSES[c], 0) + 1
-            if len(explained["examples"]) < 4 and v.scen.tag != "corpus:witness-prepare":
-                explained["examples"].append(v.scen.text())
+        flags = v.explained_by()
+        if flags:
+            for f in flags:
+                e = explained[f]
+                e["count"] += 1
+                for c in v.fails:
+                    e["by_clause"][CLAUSES[c]] = e["by_clause"].get(CLAUSES[c], 0) + 1
+                if len(e["examples"]) < 4 and not v.scen.tag.startswith("corpus:witness"):
+                    e["examples"].append(v.scen.text())
             continue
         for c in v.fails:
             todo.setdefault(c, []).append(v)
-    wit = [v for v in verdicts if v.scen.tag == "corpus:witness-prepare"]
-    if explained["count"]:
-        w = wit[0] if wit else None
-        rep = {"harness": "h_ed", "clause": CLAUSES["b"], "explained_by_missing_repair": "IndexHam.prepare fixed=false",
-               "failures_explained_in_this_run": explained}
-        if w is not None:
-            rep.update(w.scen.to_json())
-            rep["detail"] = w.detail
-            rep["implementation_HPOLY"] = [[str(x[0]), str(x[1]), list(x[2])] for x in (w.impl.hpoly or [])]
-        chk.violation(witness_key, "%s -- witness `%s`: the term contains c^+_0 twice, so it is the zero operator, but the library adds "
-                      "c_1 c_2 (clause %s). The model with fixed=false reproduces the library's polynomial, the model with fixed=true (first "
-                      "factor decided by the loop index) satisfies the clause; %d failing scenario(s) of this run are explained by it "
-                      "(clauses: %s). Coq: prepare_as_written_refuted." % (WHERE_PREPARE, " | ".join(WITNESS_PREPARE), CLAUSES["b"],
-                                                                             explained["count"], explained["by_clause"]), rep)
+    for f in sorted(DEFECTS):
+        e = explained[f]
+        if not e["count"]:
+            continue
+        lines, where, shows, flagtext = DEFECTS[f]
+        wit = [v for v in verdicts if v.scen.tag == "corpus:witness-" + f and v.scen.variant == "real"]
+        rep = {"harness": "h_ed", "clause": CLAUSES["b"], "explained_by_missing_repair": f, "failures_explained_in_this_run": e,
+               "lines": lines, "order_spins": 0, "variant": "real", "hermitian_input": f == "magnetization", "su2": None}
+        if wit:
+            rep.update(wit[0].scen.to_json())
+            rep["detail"] = wit[0].detail
+            rep["implementation_HPOLY"] = hpoly_json(wit[0])
+            rep["HPOLY_matches_model"] = match_json(wit[0])
+        chk.violation(witness_key(f), "%s -- witness `%s`: %s (clause %s). %s; %d failing scenario(s) of this run are explained by it (clauses: %s)."
+                      % (where, " | ".join(lines), shows, CLAUSES["b"], flagtext, e["count"], e["by_clause"]), rep)
     done_keys = set()
     for c in ("x", "b", "c", "d"):
         pending = list(todo.get(c, []))
@@ -933,25 +993,25 @@ def report(chk, tools, verdicts, witness_key):
             budget -= 1
             small = shrink(tools, v.scen, c)
             sv = judge(tools, [small])[0]
-            if c in sv.fails and sv.fails != ["x"] and sv.explained_by_prepare():
-                key = witness_key
-                what = "%s -- found in `%s`, shrunk to `%s`" % (WHERE_PREPARE, v.scen.text(), small.text())
+            flags = sv.explained_by() if c in sv.fails else None
+            if flags:
+                # the minimal form is a modelled defect after all (the original scenario mixed it with something the shrinker removed)
+                key = witness_key(flags[0])
+                what = "%s -- found in `%s`, shrunk to `%s`" % (DEFECTS[flags[0]][1], v.scen.text(), small.text())
             else:
                 key = "%s: %s" % (CLAUSES[c], small.text())
                 what = "clause %s fails on the implementation for `%s`%s: %s" % (
                     CLAUSES[c], small.text(), " (%s build)" % small.variant if small.variant != "real" else "",
                     json.dumps(sv.detail.get(c), default=str)[:600])
             rep = {"harness": "h_ed", "clause": CLAUSES[c], "found_in": v.scen.text(), "found_in_tag": v.scen.tag, "detail": sv.detail,
-                   "HPOLY_matches_model": {"fixed=false": sv.match[0], "fixed=true": sv.match[1]},
-                   "implementation_HPOLY": [[str(x[0]), str(x[1]), list(x[2])] for x in (sv.impl.hpoly or [])]}
+                   "HPOLY_matches_model": match_json(sv), "implementation_HPOLY": hpoly_json(sv),
+                   "repaired_model_satisfies_clause_b": sv.repaired_model_ok}
             rep.update(small.to_json())
             if key not in done_keys:
                 done_keys.add(key)
                 chk.violation(key, what, rep)
-            # the remaining failures of this clause that the same minimal scenario explains need no report of their own:
-            # a scenario still containing the minimal call is skipped
-            small_calls = [l for l in small.lines() if not l.startswith("site")]
-            heads = set(l.split()[0] for l in small_calls)
+            # the remaining failures of this clause that contain the calls of this minimal scenario need no report of their own
+            heads = set(l.split()[0] for l in small.lines() if not l.startswith("site"))
             pending = [p for p in pending if not heads <= set(l.split()[0] for l in p.scen.lines())]
     return explained
 
@@ -980,13 +1040,15 @@ def run(chk):
     chk.assume += ["Fock space of at most 6 modes (the full 4^N matrix is compared)",
                    "every generated call is one the preset is defined for (known labels, matching shapes, indices in range) and every raw term "
                    "is valid; invalid input is C20's subject",
-                   "spin-major index ordering (order_spins 1) only on lattices whose sites have equal spin counts (otherwise C18's finding "
-                   "about IndexClassification::prepare(true) gets in the way)",
+                   "spin-major index ordering (order_spins 1) on lattices whose sites have different spin counts only when a probe shows that "
+                   "IndexClassification::prepare(true) survives it on this tree (C18's finding otherwise gets in the way); see "
+                   "coverage.spin_major_with_mixed_spin_counts_exercised",
                    "raw terms of 2, 4 and 6 operators; constants (order 0) and odd orders are outside the property's quantifier",
                    "Release build: the assert on Hermiticity in HamiltonianPart::prepare is compiled out, so non-Hermitian raw input reaches the matrix",
                    "quick tier: real build only; thorough tier adds the complex build (Gaussian-dyadic hopping and raw-term amplitudes)"]
     variants = ("real",) if quick else ("real", "complex")
     tools = Tools(variants)
+    chk.extra["spin_major_with_mixed_spin_counts_exercised"] = tools.probe_spin_major()
     rng = chk.rng
     scens = []
     for v in variants:
@@ -1007,22 +1069,17 @@ def run(chk):
     verdicts = judge(tools, scens)
 
     # ---- (a) which variant is the library?
-    nboth = sum(1 for v in verdicts if v.match == (True, True))
-    n0 = sum(1 for v in verdicts if v.match == (True, False))
-    n1 = sum(1 for v in verdicts if v.match == (False, True))
-    nnone = [v for v in verdicts if v.match == (False, False)]
-    judged = [v for v in verdicts if v.match[0] is not None]
-    if judged and not nnone and n0 and not n1:
-        variant = "fixed=false (the loop as written)"
-    elif judged and not nnone and n1 and not n0:
-        variant = "fixed=true (first factor decided by the loop index)"
-    elif judged and not nnone and not n0 and not n1:
-        variant = "undecided (no discriminating scenario)"
-    else:
-        variant = "none"
+    judged = [v for v in verdicts if v.match is not None]
+    counts = dict((k, sum(1 for v in judged if v.match[k])) for k in VARIANTS)
+    nnone = [v for v in judged if not any(v.match.values())]
+    exact = [k for k in VARIANTS if judged and counts[k] == len(judged)]
+    discr = {"fixed": sum(1 for v in judged if v.polys[(0, 0)] != v.polys[(1, 0)] or v.polys[(0, 1)] != v.polys[(1, 1)]),
+             "mag_half": sum(1 for v in judged if v.polys[(0, 0)] != v.polys[(0, 1)] or v.polys[(1, 0)] != v.polys[(1, 1)])}
     chk.extra["scenarios"] = len(scens)
-    chk.extra["HPOLY_vs_model"] = {"both variants": nboth, "only fixed=false": n0, "only fixed=true": n1, "neither": len(nnone)}
-    chk.extra["implementation_is_variant"] = variant
+    chk.extra["HPOLY_equals_model_variant"] = dict(("fixed=%d,mag_half=%d" % k, n) for k, n in counts.items())
+    chk.extra["HPOLY_equals_no_variant"] = len(nnone)
+    chk.extra["scenarios_discriminating_the_flag"] = discr
+    chk.extra["implementation_is_variant"] = ["fixed=%d,mag_half=%d" % k for k in exact] or "none"
     chk.extra["modes_histogram"] = dict(sorted((str(k), sum(1 for s in scens if s.modes() == k)) for k in range(1, 7)))
     chk.extra["translator_fragment"] = (chk.extra.get("translator") or {}).get("Gen_LatticePresets")
     for v in verdicts:
@@ -1034,7 +1091,7 @@ def run(chk):
             chk.tie_broken("model rejects a call the library accepts", "`%s`: model outcomes %s" % (v.scen.text(), v.rec.get("RES")))
             break
     for v in verdicts:
-        if v.match[0] is not None and v.scen.hermitian_input() and not v.spec_hermitian:
+        if v.match is not None and v.scen.hermitian_input() and not v.spec_hermitian:
             chk.tie_broken("generator", "scenario flagged Hermitian but its documented operator is not: `%s`" % v.scen.text())
             break
 
@@ -1048,14 +1105,14 @@ def run(chk):
         for k, sig, nontrivial in item_signatures(s, cs):
             chk.case("%s @%d" % (ctx, k), ("complex-build " if s.variant == "complex" else "") + sig, nontrivial=nontrivial,
                      sample={"scenario": s.lines(), "order_spins": s.order_spins, "variant": s.variant, "clauses": cs,
-                             "HPOLY": [[str(x[0]), str(x[1]), list(x[2])] for x in (v.impl.hpoly or [])][:6],
+                             "HPOLY": hpoly_json(v)[:6],
                              "failed": [CLAUSES[c] for c in v.fails]} if (s.tag.startswith("random") and len(chk.samples) < 3) or
                      s.tag in ("corpus:kanamori2-su2", "corpus:witness-prepare", "corpus:ss-two-site-su2") else None)
         if cls:
             names = "+".join(sorted(set(it[1] for it in s.items if it[0] == "preset")))
             key = "su2:%s %s -> %s" % (cls, names, "commutes" if v.commutes else "does-not-commute" if v.commutes is False else "not-evaluated")
             su2[key] = su2.get(key, 0) + 1
-            chk.case(ctx + " su2", "su2:%s -> %s" % (cls, "commutes" if v.commutes else "does-not-commute"), nontrivial=True)
+            chk.case(ctx + " su2", "su2:%s -> %s" % (cls, "commutes" if v.commutes else "does-not-commute"), nontrivial=cls == "sym")
     coarse = {}
     for sig, n in chk.signatures.items():
         w = sig.replace("complex-build ", "").split()
@@ -1066,23 +1123,25 @@ def run(chk):
     chk.extra["su2_histogram"] = dict(sorted(su2.items(), key=lambda kv: -kv[1])[:60])
     chk.extra["clause_evaluations"] = {"documented-operator": len(judged), "hermitian": sum(1 for v in judged if v.scen.hermitian_input()),
                                        "su2-commutator (claimed)": sum(1 for v in judged if v.scen.su2_class() == "sym"),
+                                       "su2-commutator (general U', counted only)": sum(1 for v in judged if v.scen.su2_class() == "general-Up"),
                                        "su2-commutator (negative controls)": sum(1 for v in judged if v.scen.su2_class() == "control")}
 
     # ---- violations
-    witness_key = "%s: %s" % (CLAUSES["b"], " | ".join(WITNESS_PREPARE))
-    explained = report(chk, tools, verdicts, witness_key)
-    chk.extra["failing_scenarios"] = {"total": sum(1 for v in verdicts if v.fails), "explained_by_prepare_defect": explained["count"],
+    explained = report(chk, tools, verdicts)
+    chk.extra["failing_scenarios"] = {"total": sum(1 for v in verdicts if v.fails),
+                                      "explained_by_modelled_defect": dict((f, e["count"]) for f, e in explained.items()),
                                       "by_clause": dict((CLAUSES[c], sum(1 for v in verdicts if c in v.fails)) for c in CLAUSES)}
 
     # ---- the library agrees with neither model variant although the property holds there: the model is wrong
     for v in nnone:
         if not v.fails:
             small = v.scen
-            chk.tie_broken("model vs HPOLY", "the library's IndexHamiltonian polynomial differs from both model variants on `%s` although clauses "
-                           "(b)-(d) hold there: the model (Lattice.v / IndexHam.v / generated factories) does not describe this code; "
-                           "library: %s; model fixed=false: %s" % (small.text(), [[str(x[0]), str(x[1]), list(x[2])] for x in v.impl.hpoly][:8],
-                                                                   v.rec.get("POLY0", [])[:60]))
+            chk.tie_broken("model vs HPOLY", "the library's IndexHamiltonian polynomial differs from all four model variants on `%s` although "
+                           "clauses (b)-(d) hold there: the model (Lattice.v / IndexHam.v / generated factories) does not describe this code; "
+                           "library: %s; model (fixed=0,mag_half=0): %s" % (small.text(), hpoly_json(v)[:8], v.rec.get("POLY00", [])[:60]))
             break
+    if judged and not nnone and not exact:
+        chk.tie_broken("model vs HPOLY", "no single model variant reproduces the library's polynomial on every scenario: %s" % chk.extra["HPOLY_equals_model_variant"])
     chk.extra["process_counts"] = tools.stats
     chk.rule = ("cases are single calls (preset call or raw term) inside scenarios = site layout (1-3 sites, 1-3 orbitals, 1-3 spins, at most 6 modes, "
                 "label sets that change the hash order of the index map) + 1-6 calls + index ordering (order_spins 0/1). A directed corpus (%d "
@@ -1116,7 +1175,9 @@ def replay(chk, path):
     print("scenario: %s   (%s build)" % (s.text(), variant))
     print("clauses judged: documented-operator%s%s" % (", hermitian" if s.hermitian_input() else "", ", su2-commutator" if s.su2_class() == "sym" else ""))
     print("library polynomial (HPOLY): %s" % [[str(x[0]), str(x[1]), list(x[2])] for x in (v.impl.hpoly or [])])
-    print("HPOLY = model fixed=false: %s   = model fixed=true: %s" % v.match)
+    print("HPOLY equals the polynomial of model variant: %s" % match_json(v))
+    if v.fails:
+        print("modelled defects that explain the failure: %s" % (v.explained_by() or "none"))
     for c in v.fails:
         print("FAILED clause %s: %s" % (CLAUSES[c], json.dumps(v.detail.get(c), default=str)))
         chk.violation(r.get("key", "replay"), r.get("what", CLAUSES[c]), rep)
@@ -1137,3 +1198,4 @@ def replay(chk, path):
 def setup():
     pv.build_driver(DRIVER, ["C04_model"])
     pv.build_harness("h_ed")
+    pv.build_harness("h_ed", "complex")      # thorough tier
